@@ -12,7 +12,10 @@
    Everything else (series present, counter totals, sampled counts, set members, timestamps,
    whether the next handler was called, event tags as sorted lists) is compared exactly.
    The regexp oracle is a table (pattern -> None if it does not compile, else subject -> matched);
-   a lookup that misses the table fails the case. *)
+   a lookup that misses the table fails the case.
+   Config stream: the real handler is built by NewTagHandlerFromViper from TOML text (through viper), the
+   model by [raws_of_config] from the same configuration as a tree ([k_cfg]); [handler_of_config] is
+   [build_handler] of [raws_of_config], which is what [case_handler] computes. *)
 From stdpp Require Import gmap.
 From Coq Require Import QArith Qcanon.
 From GS Require Export Corr.MMLib Model.Tags.
@@ -21,6 +24,7 @@ Record c10case := C10 {
   k_retab : list (str * option (list (str * bool)));
   k_static : list str;
   k_filters : list raw_filter;
+  k_cfg : option tag_config;    (* Some: the handler is built from configuration text (config stream) and k_filters is unused *)
   k_input : list entry;
   k_events : list (list str);
   k_ctor_panic : bool;          (* NewStringMatch / NewTagHandler panicked *)
@@ -50,8 +54,15 @@ Definition entry_subjects (e : entry) : list str :=
   | EC n _ _ _ _ tg | EG n _ _ _ _ tg | ET n _ _ _ _ _ _ tg | ES n _ _ _ _ tg => n :: tg
   end.
 
+(* the pattern strings of the case: given directly, or what the configuration yields *)
+Definition case_raws (c : c10case) : list raw_filter :=
+  match k_cfg c with Some cfg => raws_of_config cfg | None => k_filters c end.
+
+Definition case_handler (c : c10case) : res tag_handler :=
+  build_handler (tab_ok (k_retab c)) (k_static c) (case_raws c).
+
 Definition oracle_complete (c : c10case) : bool :=
-  let pats := omap regex_of (concat (map raw_patterns (k_filters c))) in
+  let pats := omap regex_of (concat (map raw_patterns (case_raws c))) in
   let subjects := concat (map entry_subjects (k_input c)) in
   forallb (λ p, match assoc_str p (k_retab c) with
                 | None => false
@@ -117,7 +128,7 @@ Definition events_ok (re : str → str → bool) (th : tag_handler) (ins outs : 
 Definition check_case (c : c10case) : bool :=
   let re := tab_match (k_retab c) in
   oracle_complete c &&
-  match build_handler (tab_ok (k_retab c)) (k_static c) (k_filters c) with
+  match case_handler c with
   | Done th =>
       let m := map_of_entries (k_input c) in
       let ob := map_of_entries (k_out c) in
@@ -138,7 +149,7 @@ Definition check_case (c : c10case) : bool :=
    next handler is called, the output map, the event tags *)
 Definition explain_case (c : c10case) : nat * bool * list entry * list (list str) :=
   let re := tab_match (k_retab c) in
-  match build_handler (tab_ok (k_retab c)) (k_static c) (k_filters c) with
+  match case_handler c with
   | Done th =>
       let evs := map (λ t, match dispatch_event th t with Done r => sort_tags r | _ => [] end) (k_events c) in
       match dispatch re th (map_of_entries (k_input c)) with
